@@ -378,6 +378,21 @@ def r4_compositions(idx, r):
             r.violate(key + ":negative", f, f"negative default mass fraction(s): {neg}")
     if n_fold < 30:
         raise AnalysisError(f"only {n_fold} material compositions folded")
+    # every instance owns its composition table: binding massFrac to a class-level / module-level mapping shares it between
+    # all instances, so an in-place edit of one material (setMassFrac, elemental expansion) changes every later instance
+    from ..own import all_stores as _all_stores
+    nshared = 0
+    for f_, st_ in _all_stores(idx, "massFrac"):
+        if not f_.module.name.startswith("armi.materials") or ".tests" in f_.module.name or st_.kind != "assign" or st_.chain != "self.massFrac":
+            continue
+        nshared += 1
+        v = st_.value
+        fresh_ = isinstance(v, (ast.Dict, ast.DictComp, ast.Call)) and not (isinstance(v, ast.Call) and isinstance(v.func, ast.Attribute) and v.func.attr in ("get", "pop", "setdefault"))
+        r.require(fresh_, f"{f_.qualname}:massFrac-is-a-fresh-table", f_, node=st_.stmt,
+                  msg=f"`{norm(st_.stmt)[:70]}` binds the instance's composition to an object that outlives the instance: materials created later start from whatever an "
+                      "earlier instance edited in place, not from the nominal composition")
+    if nshared < 1:
+        raise AnalysisError("no assignment of self.massFrac found in armi.materials")
     # a material that has a density correlation of its own also needs a composition: without one its mass fractions are
     # empty (sum 0) and every component made of it has no nuclides at all
     NO_COMPOSITION_OK = {
